@@ -7,10 +7,14 @@ EXTENDS Bytes, CipTypes
 
 ElemWords(ty) == CASE ty \in {"N", "B", "S", "I", "O", "A"} -> 1 [] ty \in {"F", "L"} -> 2 [] ty \in {"T", "C"} -> 3 [] ty = "ST" -> 42
 TypeCode(ty) == CASE ty = "N" -> 137 [] ty = "B" -> 133 [] ty = "T" -> 134 [] ty = "C" -> 135 [] ty = "S" -> 132 [] ty = "F" -> 138
-                  [] ty = "O" -> 130 [] ty = "I" -> 131 [] ty = "L" -> 145 [] ty = "ST" -> 141 [] ty = "A" -> 142
+                  [] ty = "O" -> 130 [] ty = "I" -> 131 [] ty = "L" -> 145 [] ty = "ST" -> 141 [] ty = "A" -> 142 [] ty = "DLG" -> 165
 FileIdx(tab, f) == {i \in 1..Len(tab) : tab[i].file = f}
 HasFile(tab, f) == FileIdx(tab, f) # {}
 FileOf(tab, f) == tab[CHOOSE i \in FileIdx(tab, f) : TRUE]
+\* data-log queues (MicroLogix): queue q is the table entry 10000 + q of type "DLG" whose field recs holds the records still
+\* queued (byte strings); a typed read of file type 0xA5, element q, takes the oldest record off the queue
+DlgFile(q) == 10000 + q
+SetRecs(tab, f, r) == [i \in 1..Len(tab) |-> IF tab[i].file = f THEN [tab[i] EXCEPT !.recs = r] ELSE tab[i]]
 SetWords(tab, f, w) == [i \in 1..Len(tab) |-> IF tab[i].file = f THEN [tab[i] EXCEPT !.words = w] ELSE tab[i]]
 
 \* one address field: a byte, or 0xFF followed by a 16-bit value  ->  [ok, v, next]
@@ -40,6 +44,11 @@ PcccExec(tab, d) ==
     LET q == PcccParse(d) IN
     IF ~q.ok THEN [reply |-> <<>>, tab |-> tab, ok |-> FALSE, q |-> q]
     ELSE IF q.cmd # 15 \/ q.fnc \notin {162, 171} THEN [reply |-> PcccReply(q, 16, <<>>, <<>>), tab |-> tab, ok |-> TRUE, q |-> q]
+    ELSE IF q.ftype = 165 /\ q.fnc = 162 THEN
+         (IF ~HasFile(tab, DlgFile(q.elem)) \/ FileOf(tab, DlgFile(q.elem)).recs = <<>>
+          THEN [reply |-> PcccReply(q, 240, <<6>>, <<>>), tab |-> tab, ok |-> TRUE, q |-> q]
+          ELSE LET recs == FileOf(tab, DlgFile(q.elem)).recs IN
+               [reply |-> PcccReply(q, 0, <<>>, Head(recs)), tab |-> SetRecs(tab, DlgFile(q.elem), Tail(recs)), ok |-> TRUE, q |-> q])
     ELSE IF ~HasFile(tab, q.file) \/ TypeCode(FileOf(tab, q.file).type) # q.ftype THEN [reply |-> PcccReply(q, 240, <<6>>, <<>>), tab |-> tab, ok |-> TRUE, q |-> q]
     ELSE LET f == FileOf(tab, q.file)  ew == ElemWords(f.type)  w0 == q.elem * ew + q.sub  nw == (q.size + 1) \div 2 IN
          IF q.size % 2 = 1 \/ nw = 0 \/ w0 + nw > Len(f.words) THEN [reply |-> PcccReply(q, 240, <<IF q.size % 2 = 0 THEN 10 ELSE 11>>, <<>>), tab |-> tab, ok |-> TRUE, q |-> q]
